@@ -29,7 +29,8 @@ type C07Case struct {
 }
 
 func genC07Case(t *rapid.T) C07Case {
-	spec := genSSOWorld(t, worldOpts{minACS: 1, maxACS: 3, signingFlags: true, issuerModes: []string{"static", "static", "host"}, customSSO: true, maxSPs: 3})
+	spec := genSSOWorld(t, worldOpts{minACS: 1, maxACS: 4, signingFlags: true, issuerModes: []string{"static", "static", "host"}, customSSO: true, maxSPs: 3,
+		bindings: []string{world.BindPost, world.BindRedirect, world.BindPost, world.BindRedirect, world.BindArtifact}})
 	for i := range spec.SPs {
 		spec.SPs[i].CertLayout = rapid.SampledFrom([]string{"plain", "plain", "wrapped64", "wrapped76", "padded", "indented"}).Draw(t, "mdcertlayout")
 		if len(spec.SPs[i].KeyNames) > 0 && rapid.IntRange(0, 3).Draw(t, "enckeyfirst") == 0 {
@@ -73,6 +74,11 @@ func genC07Case(t *rapid.T) C07Case {
 	if binding == "redirect" && rapid.Bool().Draw(t, "explicitenc") {
 		s.Tr.Encoding = spsim.EncodingDeflate
 	}
+	if binding == "post" && rapid.IntRange(0, 3).Draw(t, "b64wrap") == 0 {
+		s.Tr.B64Wrap = rapid.SampledFrom([]int{76, 64, 60, 4}).Draw(t, "b64cols")
+		s.Tr.B64EOL = rapid.SampledFrom([]string{"\r\n", "\n"}).Draw(t, "b64eol")
+		s.Tr.B64Trail = rapid.Bool().Draw(t, "b64trail")
+	}
 	wantSign := false
 	switch c.Kind {
 	case "authn":
@@ -100,6 +106,30 @@ func genC07Case(t *rapid.T) C07Case {
 			s.Req.ACSURL = a.Location
 			s.Req.ProtocolBinding = a.Binding
 		}
+		// A service provider may register endpoints the IdP cannot answer (HTTP-Artifact); the request is one the IdP has to
+		// accept only if the documented selection (C16) lands on an answerable entry - by construction: entries the selection
+		// may land on are given the POST binding.
+		for round := 0; round < 5; round++ {
+			pb := s.Req.ProtocolBinding
+			if pb == A {
+				pb = ""
+			}
+			changed := false
+			for _, chosen := range refSelect(spec.SPs[s.SP], pb) {
+				if chosen.Binding != world.BindPost && chosen.Binding != world.BindRedirect {
+					for k := range spec.SPs[s.SP].ACS {
+						if spec.SPs[s.SP].ACS[k].Location == chosen.Location && spec.SPs[s.SP].ACS[k].Index == chosen.Index {
+							spec.SPs[s.SP].ACS[k].Binding = world.BindPost
+							changed = true
+						}
+					}
+				}
+			}
+			if !changed {
+				break
+			}
+		}
+		s.Spec = spec
 	case "logout":
 		l := spsim.NewLogoutReq(genID(t, "id"), sp.EntityID, "usermark0")
 		// a conformant SP stamps the request "now": it is handled later, hence never before its IssueInstant
